@@ -243,7 +243,7 @@ def overwrite_shard(shard):
 def exec_specs():
     """Wide operands and boundary immediates of every mnemonic (the longest texts the views have to show)."""
     out = []
-    for regs in ((31, 31, 31), (10, 11, 12), (1, 2, 3)):
+    for regs in ((31, 31, 31), (10, 11, 12), (1, 2, 3), (0, 0, 0), (0, 0, 7), (0, 7, 0)):
         a, b, c = regs
         out += [(mn, a, b, c) for mn in R]
         for imm in (-2048, -1, 2047, 0, 1365):
